@@ -47,6 +47,21 @@ CLAIMS["C06"] = dict(
    technique="Lean 4 proof (invariants over arbitrary kernel scripts; refinement of the stepwise connect model to a one-pass reference) + lock-step correspondence",
    design_ref="5/C06")
 
+ # C20
+CLAIMS["C20"] = dict(
+   text="The clean-up code of every secret-handling function (hash/HMAC *_Final, AES key free in both layouts, AES-CTR free, the "
+        "BIGNUM ladder of blinded_modexp, the aws_readkeys error ladder) is TRANSLATED from the current source into a small statement "
+        "language on every run; Lean gives it a semantics (abstract interpreter enumerating all 21 exit paths of blinded_modexp with "
+        "live/tainted tracking; dominance of every free() by a whole-block zeroing; last-touch analysis of context objects) and the "
+        "kernel decides the wipe property on the regenerated program, independent of any key, message, private or blinding value. "
+        "General theorems state what a 'true' verdict means for any program. The real code is then observed in an -O2 build: context "
+        "bytes after Final, block contents at free() (link-time wrappers), BIGNUM limbs at release (CRYPTO_set_mem_functions) with "
+        "failure of the k-th OpenSSL allocation injected to walk every rung of the error ladder.",
+   note=PROOF_NOTE + "Trusted in addition: tools/extractors/c20.py (C statement-shape translator, ~250 lines); OpenSSL's BN_clear_free cleanses (observed, not modelled); "
+        "compiler elision of insecure_memzero is observed in one -O2 build only; stack/register copies and blocks freed by libc itself (stdio) are outside the statement.",
+   technique="Lean 4 decision over a model regenerated from source by a translator (abstract interpretation of clean-up code) + runtime observation with fault injection",
+   design_ref="5/C20")
+
 PENDING = "check not built yet in this round (see DESIGN.md section 5 for the plan); nothing is claimed for it"
 
 def main():
